@@ -112,10 +112,11 @@ def check(prop, tier):
         byclass.setdefault(r.get('vclass'), []).append(r)
     replay_paths = []
     os.makedirs(REPLAYS, exist_ok=True)
+    maxper = int(os.environ.get('VSIM_REPLAYS_PER_CLASS', '1'))
     for vclass, rs in byclass.items():
-        r = rs[0]
+      for r in rs[:maxper]:
         case = r['_case']
-        small, nruns = shrinkmod.minimise(mod, case, vclass, known, budget_s=90 if tier == 'quick' else 240)
+        small, nruns = shrinkmod.minimise(mod, case, vclass, known, budget_s=(90 if tier == 'quick' else 240) / maxper)
         res2 = isolate.run_isolated(mod.run_case, small, timeout=getattr(mod, 'CASE_TIMEOUT', 60.0))
         if not (res2.get('verdict') == 'violation' and res2.get('vclass') == vclass):
             small, res2 = case, r
@@ -131,8 +132,6 @@ def check(prop, tier):
         lines.append(f'VIOLATION property={prop} replay={path}')
         lines.append(f'  class={vclass} cases={len(rs)} detail={str(res2.get("detail"))[:500]} fresh_replay_exit={rc}')
         exit_code = exit_code or 1
-        if exit_code == 2:
-            pass
     if new_viol and exit_code != 2:
         exit_code = 1
 
